@@ -15,7 +15,7 @@ from bvt.vloop import Hang, fresh_loop
 ID = 'C19'
 LEVEL = 'exploration'
 RULE = (
-    'Hypothesis-generated (retries 0-5, wait, backoff_factor, timeout, retry_on subset, per-attempt script of '
+    'Hypothesis-generated (retries 0-5, wait, backoff_factor, timeout, retry_on subset incl. None and the empty tuple, per-attempt script of '
     'success/listed/unlisted exception/overrun, optional caller cancellation instant) run on the virtual-time loop; '
     'compared with a reference model of call instants, waits, outcome and end time. Non-trivial = at least two '
     'attempts were made, or an attempt was cut off by the timeout, or a caller cancellation took effect; distinct by '
@@ -58,7 +58,7 @@ def _case(draw):
     wait = draw(q(0, 8))
     backoff = draw(st.sampled_from([1.0, 2.0, 1.5, 0.5, 3.0]))
     timeout = draw(q(1, 16))
-    retry_on = draw(st.sampled_from([None, None, ['EA'], ['EA', 'EB'], ['EB'], ['TO'], ['EA', 'TO'], ['VE', 'EC']]))
+    retry_on = draw(st.sampled_from([None, None, ['EA'], ['EA', 'EB'], ['EB'], ['TO'], ['EA', 'TO'], ['VE', 'EC'], []]))
     script = []
     for _ in range(retries + 2):
         kind = draw(st.sampled_from(['ok', 'EA', 'EA', 'EB', 'EC', 'TO', 'VE', 'over']))
